@@ -210,6 +210,8 @@ class Runner:
         self.res.bump('op.' + op['op'])
         rc = self.conts[op.get('on', 'a')]
         pre = rc.raw()
+        self.pre_expected = set(rc.expected)
+        self.pre_damaged = set(self.damaged)
         real_out = self._real(rc, op)
         post = rc.raw()
         if op['op'] == 'damage':
@@ -222,6 +224,8 @@ class Runner:
                            f're-adding cid {op["c"]} left a loose file with {len(post.loose_bytes[key])} wrong bytes in place')
         line = self._model_line(rc, op, pre, post)
         rec = dict(op)
+        if getattr(self, 'check_ir', False) and line is not None:
+            self._ir_safety(rc, op, line)
         if line is not None:
             model_out = self._ask(line)
             if model_out == 'inadmissible' and op['op'] in ('packAll', 'repack', 'repackOne'):
@@ -442,6 +446,37 @@ class Runner:
             return f'store op {n} damage {op["k"]} {op["c"]}'
         raise common.Infra(f'unknown op {op}')
 
+    def ir_args(self, rc: RealCont, op: dict, line: str):
+        """arguments of the Level-C compiler for this op (choices taken from the model line built from the real run)"""
+        kind = op['op']
+        parts = line.split(' ')
+        if kind == 'addLoose':
+            return f'addLoose {op["c"]} {b01(rc.cfg.prefix_len > 0)}'
+        if kind == 'addPacked':
+            return f'addPacked {b01(op["compress"])} {b01(op["no_holes"])} {b01(op["read_twice"])} {show_nats(op["cs"])}'
+        if kind == 'packAll':
+            return f'packAll {parts[5]} {parts[6]} {parts[7]}'
+        if kind == 'delete':
+            return f'delete {parts[4]}'
+        if kind == 'repackOne':
+            _, _, zs = parts[5].split(':')
+            return f'repackOne {op["p"]} {zs}'
+        return None
+
+    def _ir_safety(self, rc: RealCont, op: dict, line: str):
+        args = self.ir_args(rc, op, line)
+        if args is None:
+            return
+        keep = sorted(self.pre_expected - ({k for k in op.get('ks', []) if isinstance(k, int)} if op['op'] == 'delete' else set()))
+        dmg = {k for (nm, k) in self.pre_damaged if nm == rc.name}
+        keep = [k for k in keep if k not in dmg]
+        univ = [k for k in range(len(self.pool)) if k not in dmg]
+        for kind in ('crash', 'power', 'fault'):
+            out = self._ask(f'store safety {kind} {rc.name} {show_nats(keep)} {show_nats(univ)} {args}')
+            self.res.bump('ir_safety_queries')
+            if not out.endswith('unsafe=-'):
+                self.res.diffs.append((self.step, 'ir.safety', f'{kind}: {out}', args, op['op']))
+
     def _cid_or(self, rc: RealCont, key: str) -> int:
         cid = rc.cid(key)
         return cid if cid is not None else 999999
@@ -625,10 +660,31 @@ class Runner:
         try:
             bulk = c.get_objects_content(req, skip_if_missing=True)
             bulk_all = c.get_objects_content(req, skip_if_missing=False)
-            metas = dict(c.get_objects_meta(req, skip_if_missing=False))
+            metas_list = list(c.get_objects_meta(req, skip_if_missing=False))
+            metas = dict(metas_list)
+            with c.get_objects_stream_and_meta(req, skip_if_missing=True) as triplets:
+                yielded = [k for k, _, _ in triplets]
+            has_bulk = c.has_objects(req)
         except Exception as exc:  # pylint: disable=broad-except
             self._fail('C02', f'bulk-raised-{kind}', f'bulk read raised {type(exc).__name__}: {exc}')
+            self._fail('C16', f'bulk-raised-{kind}', f'bulk read raised {type(exc).__name__}: {exc}')
             return
+        # C16: each distinct key exactly once; bulk = per-key, whatever the thresholds
+        mk = [k for k, _ in metas_list]
+        if len(mk) != len(set(mk)) or set(mk) != set(req):
+            self._fail('C16', f'bulk-once-meta-{kind}', f'get_objects_meta reported {len(mk)} entries for {len(set(req))} distinct keys ({len(mk) - len(set(mk))} repeated)')
+        if len(yielded) != len(set(yielded)):
+            self._fail('C16', f'bulk-once-stream-{kind}', f'get_objects_stream_and_meta yielded a key twice ({len(yielded)} items, {len(set(yielded))} distinct)')
+        if not dmg:
+            for key_, hb in zip(req, has_bulk):
+                single_has = key_ in {keys[i] for i, k in enumerate(ks) if has[i]}
+                if hb != single_has:
+                    self._fail('C16', f'bulk-has-{kind}', 'has_objects on the bulk request differs from the per-key answer')
+            for k, key in zip(ks, keys):
+                if bulk_all.get(key) != single.get(k):
+                    self._fail('C16', f'bulk-vs-single-{kind}', f'bulk content of cid {k} differs from the single-key read')
+                if (key in bulk) != (single.get(k) is not None):
+                    self._fail('C16', f'bulk-skip-{kind}', f'skip_if_missing handling of cid {k} differs from the single-key answer')
         exp_keys = {rc.key(k) for k in exp if k < len(self.pool)}
         if set(bulk) != exp_keys & set(req):
             self._fail('C02', f'bulk-keys-{kind}', 'bulk read (skip missing) returned a different key set than the map')
